@@ -7,7 +7,7 @@ import collections
 from .. import gen, probe, spec
 from ..mon_core import is_library_value_error
 from ..probe import violation
-from .common import call
+from .common import scale_leg, call
 
 PROP = "C08"
 LEVEL = "exploration"
@@ -47,6 +47,7 @@ def malformed(d):
 
 def run_case(ctx, g, rng):
     api, S = ctx.api, probe.S
+    scale_leg(ctx, rng, rng.choice([":", ":", "/", "::"]), modes=True, g=g)
     d = rng.choice(gen.DELIMS)
     recs = gen.records(rng, d, 0, 4, allow_delim=rng.random() < 0.15)
     c, how = gen.build(api, recs, d, rng)
